@@ -132,6 +132,13 @@ func cmdSelftest(args []string) int {
 		} else {
 			for _, e := range expect {
 				found := false
+				if strings.HasPrefix(e, "ENGINE:") {
+					for _, ee := range w.engineErrs {
+						if strings.Contains(ee, strings.TrimSpace(e[7:])) {
+							found = true
+						}
+					}
+				}
 				for _, fn := range failed {
 					if strings.Contains(fn, e) {
 						found = true
